@@ -6,7 +6,7 @@ E4 table auditor.  The MIR of the address->country function is evaluated over an
 is turned into the exact map  interval -> returned code  without evaluating it on any
 single address.  That map is compared with an independent transcription of Annex 10.
 """
-from ..facts import Broken, span_loc
+from ..facts import Broken, callee_name, span_loc
 from ..mirq import DefUse, field_stores, adt_aggregates, operand_place, proj_fields
 from ..report import Finding
 from ..ref.annex10 import REF
@@ -266,6 +266,7 @@ def run(facts, rep, tier):
     rep.trusted = ["rustc MIR construction", "reference transcription sq/ref/annex10.py (189 blocks)"]
     rep.rule("R17.1", "interval map of icao_to_country == Annex 10 reference on all 2^24 addresses", "P")
     rep.rule("R17.2", "no dead match arm (prefix shadowed by a shorter one)", "P")
+    rep.rule("R17.4", "every constructor that stores an address into a new row also stores its country, on every path", "P")
     rep.rule("R17.3", "Plane.reg is stored only from icao_to_country(value stored to Plane.icao).1; function is pure", "P")
 
     # anchor: the function Plane.reg is computed by
@@ -328,7 +329,8 @@ def run(facts, rep, tier):
             rep.add(Finding("R17.3", "%s : aggregate reg not constant" % ag["body"].name,
                             "Plane aggregate initialises reg from a non-constant", span_loc(ag["stmt"].get("span"))))
         n_ok += 1
-    rep.instances("R17.3", n_ok, floor=3, what="Plane.reg stores (2 constructors + new aggregate)")
+    rep.instances("R17.3", n_ok, floor=2, what="Plane.reg stores (2 constructors + new aggregate)")
+    _must_set_country(facts, rep, stores)
     if len(fn_names) != 1:
         raise Broken("C17 anchor: Plane.reg is fed by %d distinct functions: %s" % (len(fn_names), sorted(fn_names)))
     fn = fn_names.pop()
@@ -412,3 +414,54 @@ def run(facts, rep, tier):
         "the reference block list is a faithful transcription of ICAO Annex 10 Vol III table 9-1",
         "addresses are 24-bit (0..2^24-1): both address sources are 24-bit fields",
     ]
+
+
+def _must_set_country(facts, rep, reg_stores):
+    """R17.4: a function that builds a row (returns Plane) and stores Plane.icao from its parameter must store Plane.reg on
+    every path to its return - directly or through a callee that itself always does.  (A row whose address is set but whose
+    country depends on the first frame's format, an option or a row state shows neither the block's code nor `??`.)"""
+    from ..cfg import CFG
+    direct = {}
+    for st in reg_stores:
+        b = st["body"]
+        bb = st.get("bb")
+        if bb is None:
+            # locate the block of the statement / terminator
+            node = st.get("stmt") or st.get("term")
+            for bi, blk in enumerate(b.blocks):
+                if node is blk["term"] or any(node is x for x in blk["stmts"]):
+                    bb = bi
+        if bb is not None:
+            direct.setdefault(b.name, set()).add(bb)
+    memo = {}
+
+    def must(name, depth=0):
+        if name in memo:
+            return memo[name]
+        memo[name] = False
+        b = facts.bodies.get(name)
+        if b is None or depth > 4:
+            return False
+        cfg = CFG(b)
+        rets = [bi for bi in cfg.reach if b.blocks[bi]["term"]["k"] == "return"]
+        cand = set(direct.get(name, ()))
+        for bi, t in b.calls():
+            cn = callee_name(t)
+            if cn in facts.bodies and cn != name and must(cn, depth + 1):
+                cand.add(bi)
+        ok = bool(rets) and any(all(cfg.dominates(c, r) for r in rets) for c in cand)
+        memo[name] = ok
+        return ok
+    n = 0
+    for st in field_stores(facts, "Plane", "icao"):
+        b = st["body"]
+        if "::tests::" in b.name or not b.locals[0]["ty"]["s"].endswith("Plane"):
+            continue          # not a constructor (the row already exists and has its country)
+        n += 1
+        ok = must(b.name)
+        rep.oblige(ok, ("country-with-address", b.name))
+        if not ok:
+            rep.add(Finding("R17.4", "%s : address stored without its country on some path" % b.name,
+                            "%s builds a row and stores Plane.icao, but Plane.reg is not stored on every path to its return: the country "
+                            "shown then depends on more than the address (first frame's format, an option, row state)" % b.name, b.loc()))
+    rep.instances("R17.4", n, floor=1, what="row constructors storing an address")
